@@ -18,7 +18,7 @@ func TestVerifC10(t *testing.T) {
 	defer r.Flush()
 	depth := 4
 	if ev.Thorough() {
-		depth = 6
+		depth = 8
 	}
 	r.Rule(fmt.Sprintf("breadth-first search to depth %d (from the empty cluster and from roots with bound pods) over {podCreate on node-1 / on node-2 after a removal (same name, new UID), podExit, podRemove, reconcilePod(i), reconcilePodENI(i) — the two REAL controllers observe in any order —, gcCR, gcENI, clock steps around 1 min / TTL / 10 min, one-shot faults on Create/Attach/Detach/Delete and on the PodENI create call} x trunk on/off x pod kinds {elastic, fixed, two interfaces}; oracles on every transition: (phase, phase') in the documented relation, a record disappears only from Deleting, no Detach/Delete of an interface whose record carries the UID of a pod that is still running; closure from every state: deleted elastic pod => record and interface gone, no controller-created interface without a record after the leak collector", depth))
 	var cfgs []pwCfg
@@ -39,7 +39,7 @@ func TestVerifC11(t *testing.T) {
 	defer r.Flush()
 	depth := 5
 	if ev.Thorough() {
-		depth = 7
+		depth = 9
 	}
 	r.Rule(fmt.Sprintf("breadth-first search to depth %d from roots with a bound fixed-IP pod over the same alphabet as C10 with clock steps {61 s, TTL-1 s, TTL+1 s, 10 min+1 s} and pod kinds {fixed TTL, fixed Never, two interfaces TTL+elastic, TTL+Never, Never+TTL, long TTL+short TTL}; oracles: a fixed record is moved to Deleting/removed only by the collector, only when now-podLastSeen >= TTL and never when an allocation says Never; closure: a pod that exists (recreated under the same name, same or other node) ends Bind with its new UID on the SAME interface and address", depth))
 	var cfgs []pwCfg
